@@ -141,10 +141,10 @@ func post(c *astutil.Cursor) bool {
 	case *ast.SelectorExpr:
 		if id, ok := x.X.(*ast.Ident); ok && id.Name == "time" && id.Obj == nil {
 			switch x.Sel.Name {
-			case "Now", "Since", "Sleep", "NewTicker":
+			case "Now", "Since", "Sleep", "NewTicker", "Until":
 				counts["time"]++
 				c.Replace(vs("Time" + x.Sel.Name))
-			case "After", "Tick", "NewTimer", "AfterFunc", "Until":
+			case "After", "Tick", "NewTimer", "AfterFunc":
 				fail(x.Pos(), "time.%s is not supported by the scheduler shim", x.Sel.Name)
 			}
 		}
